@@ -119,6 +119,11 @@ std::string Scenario::CommandLine(const Stmt& s) const {
   return r;
 }
 
+// Half of the dyndep bindings are written on the rule, so that the build statement
+// has no bindings (and hence no scope) of its own - derived from the statement, not
+// drawn from the tape.
+static bool DyndepOnRule(const Stmt& s) { return !s.dyndep.empty() && Hash64(s.dyndep, (uint64_t)s.id * 31 + 7) % 2 == 0; }
+
 static void PrintStmt(const Scenario& sc, const Stmt& s, std::string* o) {
   char buf[64];
   if (!s.phony) {
@@ -138,6 +143,7 @@ static void PrintStmt(const Scenario& sc, const Stmt& s, std::string* o) {
       else *o += "  rspfile_content = " + NinjaValueEscape(s.rsp_literal) + "\n";
     }
     if (!s.pool.empty()) *o += "  pool = " + s.pool + "\n";
+    if (DyndepOnRule(s)) *o += "  dyndep = " + NinjaValueEscape(s.dyndep) + "\n";
   }
   *o += "build";
   for (auto& p : s.outs) *o += " " + NinjaPathEscape(p);
@@ -148,7 +154,7 @@ static void PrintStmt(const Scenario& sc, const Stmt& s, std::string* o) {
   if (!s.oo_ins.empty()) { *o += " ||"; for (auto& p : s.oo_ins) *o += " " + NinjaPathEscape(p); }
   if (!s.validations.empty()) { *o += " |@"; for (auto& p : s.validations) *o += " " + NinjaPathEscape(p); }
   *o += "\n";
-  if (!s.dyndep.empty()) *o += "  dyndep = " + NinjaValueEscape(s.dyndep) + "\n";
+  if (!s.dyndep.empty() && !DyndepOnRule(s)) *o += "  dyndep = " + NinjaValueEscape(s.dyndep) + "\n";
 }
 
 static bool InSub(const Scenario& sc, const Stmt& s) {
